@@ -31,6 +31,9 @@ struct HostSpec {
     tasks: Vec<Vec<Op>>,
     /// hosts loop their script forever; clients run it `rounds` times
     rounds: u32,
+    /// host software that returns Ok after `rounds` rounds (its clock must keep
+    /// counting while it is finished; a later bounce shows it)
+    finite_host: bool,
 }
 
 #[derive(Clone, Debug)]
@@ -101,6 +104,7 @@ fn gen(seed: u64, force_tick_us: Option<u64>) -> Scn {
             register_at,
             tasks,
             rounds: r.range(1, 4) as u32,
+            finite_host: !is_client && r.chance(0.35),
         });
     }
     let _ = any_client_initial;
@@ -125,6 +129,14 @@ fn gen(seed: u64, force_tick_us: Option<u64>) -> Scn {
                 down = true;
             } else {
                 acts.push((s, Act::Bounce(i)));
+            }
+        }
+    }
+    for (i, h) in hosts.iter().enumerate() {
+        if h.finite_host {
+            let at = (h.register_at + steps) / 2 + r.range(1, steps / 3);
+            if at < steps {
+                acts.push((at, Act::Bounce(i)));
             }
         }
     }
@@ -200,7 +212,7 @@ fn program(
 ) -> impl std::future::Future<Output = turmoil::Result> + 'static {
     async move {
         let t0 = Instant::now();
-        let rounds = if spec.is_client { Some(spec.rounds) } else { None };
+        let rounds = if spec.is_client || spec.finite_host { Some(spec.rounds) } else { None };
         let mut handles = vec![];
         for (ti, ops) in spec.tasks.iter().enumerate().skip(1) {
             handles.push(tokio::task::spawn_local(run_task(
@@ -415,6 +427,8 @@ fn scenario(s: Scn) -> ScenarioOut {
     out.saw("tick_us", s.tick_us.to_string());
     let post_bounce = ex.samples.iter().filter(|(_, sm)| sm.inc > 0).count() as u64;
     out.count("samples_after_bounce", post_bounce);
+    let fin_bounced = ex.samples.iter().filter(|(_, sm)| sm.inc > 0 && s.hosts[sm.host].finite_host).count() as u64;
+    out.count("samples_after_bounce_of_finished_host", fin_bounced);
     let mut h = Fnv::new();
     h.write_u64(s.tick_us);
     for (st, sm) in &ex.samples {
@@ -478,6 +492,6 @@ fn fin() -> Finish<'static> {
             "the step a sample belongs to comes from the harness's own step counter".into(),
         ],
         min_distinct: 20,
-        required_counters: vec!["timer_observations", "samples_after_bounce", "controller_samples", "late_registrations"],
+        required_counters: vec!["timer_observations", "samples_after_bounce", "samples_after_bounce_of_finished_host", "controller_samples", "late_registrations"],
     }
 }
